@@ -809,3 +809,49 @@ Example C11_segmenter_mux_total_opt_example :
   forallb (mux_seg_small_opt [(ex_e2e_tb, 1, [(1, 4); (5, 7)]); (ex_e2e_audio_tb, 2, [(1, 5); (6, 5)])]) (seq 0 2) = true /\
   concat (map C11Model.range [(1, 5); (6, 5)]) = seqN1 5.
 Proof. vm_compute. split; reflexivity. Qed.
+
+(* ---- "every produced segment starts with a sync sample of the reference track", at the DECODED level ----
+   C11_video_starts_sync is a statement about the plan (sample numbers).  Here the same clause for what a reader of the
+   written files sees: for every progressive file whose tracks have consistent tables, the reference track t (the first
+   video track, as getSegmentStartsFromVideo picks it) pointing into the file and listing sample 1 in its stss, every
+   target duration for which segment starts are found, under the guard of C11_video_starts_sync (chosen sync samples
+   have non-zero duration; without it refuted, known finding) and every planned segment below 2 GiB: the in-memory
+   writer DOES write the reference track's segments, they read back (decode at any position, GetFullSamples with the
+   track's trex, trun optimisation on or off) as the track's expansion, and EVERY written segment's first sample has
+   sample_is_non_sync_sample = 0 (bit 16 of the flags a reader gets), whatever the track's sdtp says. *)
+From V.c11 Require Import C11SyncDecProofs.
+Theorem C11_segmenter_segments_start_sync :
+  forall (f : pfile) (trs : list itrack) (t : itrack) d syncTs sps ivs stss,
+  Forall (fun t => C09Spec.consistent (snd t) = true) trs -> In t trs -> data_ok f (snd t) = true ->
+  first_video (map itrack_of trs) = Some (itrack_of t) ->
+  C09Model.t_stss (snd t) = Some stss -> In 1 stss ->
+  get_segment_starts (map itrack_of trs) d = Ok (syncTs, sps) -> sps <> [] ->
+  get_segment_intervals syncTs sps (itrack_of t) = Ok ivs ->
+  nonzero_dur_syncs (itrack_of t) sps = true ->
+  forall opt T pos0 (tx : C05Model.trex),
+  tx_track tx = T -> pos0 < 4611686018427387904 -> forallb (seg_small (snd t)) ivs = true ->
+  exists fes outs, seg_track opt f (snd t) T ivs = Ok fes /\
+                   read_all (read_back tx pos0 []) fes = Ok outs /\
+                   map Some (concat outs) = expansion f (snd t) /\
+                   Forall starts_sync outs.
+Proof. exact ref_segments_start_sync. Qed.
+Print Assumptions C11_segmenter_segments_start_sync.
+
+(* hypotheses satisfiable: the 7-sample video track above (stss [1;5], sdtp present) + the audio track, 30 ms: the video
+   segments 1-4 and 5-7 read back with flags whose bit 16 is clear on the first sample (and set on the second) *)
+Example C11_segmenter_segments_start_sync_example :
+  let trs := [(true, 1000, ex_e2e_tb); (false, 48000, ex_e2e_audio_tb)] in
+  first_video (map itrack_of trs) = Some (itrack_of (true, 1000, ex_e2e_tb)) /\
+  get_segment_starts (map itrack_of trs) 30 = Ok (1000, [mkSP 1 0 0; mkSP 5 50 47]) /\
+  get_segment_intervals 1000 [mkSP 1 0 0; mkSP 5 50 47] (itrack_of (true, 1000, ex_e2e_tb)) = Ok [(1, 4); (5, 7)] /\
+  nonzero_dur_syncs (itrack_of (true, 1000, ex_e2e_tb)) [mkSP 1 0 0; mkSP 5 50 47] = true /\
+  forallb (seg_small ex_e2e_tb) [(1, 4); (5, 7)] = true /\
+  exists fes, seg_track false ex_e2e_file ex_e2e_tb 1 [(1, 4); (5, 7)] = Ok fes /\
+    option_map (map (map (fun x => N.testbit (s_flags (fs_s x)) 16)))
+      (match read_all (read_back (C05Model.mkTrex 1 0 0 0) 24 []) fes with Ok o => Some o | _ => None end)
+    = Some [[false; true; true; true]; [false; true; true]].
+Proof.
+  cbv zeta. split; [vm_compute; reflexivity|]. split; [vm_compute; reflexivity|]. split; [vm_compute; reflexivity|].
+  split; [vm_compute; reflexivity|]. split; [vm_compute; reflexivity|].
+  eexists. split; [vm_compute; reflexivity|]. vm_compute. reflexivity.
+Qed.
